@@ -24,12 +24,15 @@ from fractions import Fraction
 from ..coqgen import B, C, L, N, NONE, P, Q, Some, Z
 from .. import fin
 from ..fin import fm, T, D, us_of, err_class
+from .. import schedlib as _schedlib
+from . import sched_common as _sc
+from . import c04 as _c04
 
 ID = "C20"
 TITLE = "Static slots are time independent; pull-based components are served on demand"
-COQ_IMPORTS = "From FV Require Import Base Static."
-COQ_CHECK = "c20_check"
-COQ_MODEL_OBS = "c20_model"
+COQ_IMPORTS = "From FV Require Import Base Sched Static C20Mix."
+COQ_CHECK = "c20_check2"
+COQ_MODEL_OBS = "c20_model2"
 CASE_TIMEOUT = 60
 RULE = (
     "so/si: scripted op sequences on real static outputs / inputs (requests with datetimes and None, second "
@@ -458,6 +461,8 @@ def _nonmonotone_pull_input(obs):
 
 
 def _cls_f16(case, obs, failure):
+    if case.get("kind") == "sched":
+        return _sc.nonmonotone_pull_component_requests(case["sched"], obs["sched"])
     if case.get("kind") != "net" or case.get("mode") != "run":
         return False
     if not isinstance(failure, str) or "TimeError" not in failure:
@@ -493,6 +498,18 @@ def generate(rng, tier):
         else:
             # ~10% of the run-mode compositions may read a pull-based component at diverging times (F16)
             cases.append(_gen_net(rng, "run", allow_diverging=(i % 77 == 5)))
+    # scheduler level: compositions with pull-based components run by the real driver against the scheduler model
+    m = 60 if tier == "quick" else 1500
+    for i in range(m):
+        r = i % 6
+        if r in (0, 1, 2):
+            cases.append({"kind": "sched", "sched": _sc.gen_pull_ring(rng)})
+        elif r == 3:
+            cases.append({"kind": "sched", "sched": _sc.gen_relay2(rng)})
+        else:
+            c = _sc.gen_dag(rng)
+            if any(x["kind"] == "P" for x in c["comps"]):
+                cases.append({"kind": "sched", "sched": c})
     return cases
 
 
@@ -1095,6 +1112,8 @@ def _run_net(case):
 
 
 def run_impl(case):
+    if case["kind"] == "sched":
+        return {"sched": _schedlib.run_case(case["sched"])}
     if case["kind"] == "so":
         return _run_so(case)
     if case["kind"] == "si":
@@ -1142,6 +1161,12 @@ def _coq_edge(ed, inits):
 
 
 def coq_case(case, obs):
+    if case["kind"] == "sched":
+        return "(C20Sched " + _sc.coq_case(case["sched"], obs["sched"]) + ")"
+    return "(C20Stat " + _coq_case_stat(case, obs) + ")"
+
+
+def _coq_case_stat(case, obs):
     if case["kind"] == "so":
         ops = []
         npush = 0
@@ -1209,6 +1234,12 @@ def _coq_log(log):
 
 
 def coq_obs(case, obs):
+    if case["kind"] == "sched":
+        return "(O20Sched " + _sc.coq_obs(case["sched"], obs["sched"]) + ")"
+    return "(O20Stat " + _coq_obs_stat(case, obs) + ")"
+
+
+def _coq_obs_stat(case, obs):
     if case["kind"] == "so":
         out = []
         for r in obs["res"]:
@@ -1522,6 +1553,10 @@ class _Walk:
 
 
 def monitor(case, obs):
+    if case["kind"] == "sched":
+        # served on demand: every pull during an update succeeds, the source had published at or beyond the time
+        # actually requested (also through pull-based components), and cycles resolved by delays run
+        return _c04.monitor(case["sched"], obs["sched"])
     if case["kind"] == "so":
         return _mon_so(case, obs)
     if case["kind"] == "si":
@@ -1530,6 +1565,8 @@ def monitor(case, obs):
 
 
 def nontrivial(case, obs):
+    if case["kind"] == "sched":
+        return any(e[0] == "S" and case["sched"]["comps"][e[1]]["kind"] == "P" for e in obs["sched"].get("events", []))
     if case["kind"] == "so":
         seen = False
         n = 0
@@ -1554,6 +1591,8 @@ def distribution(cases, obss):
     from collections import Counter
 
     kinds = Counter(c["kind"] + ("/" + c["mode"] if c["kind"] == "net" else "") for c in cases)
+    pairs = [(c, o) for c, o in zip(cases, obss) if c["kind"] != "sched"]
+    cases, obss = [c for c, _ in pairs], [o for _, o in pairs]
     pulls = Counter(w["type"] for c in cases if c["kind"] == "net" for w in c["pulls"])
     npull = Counter(len(c["pulls"]) for c in cases if c["kind"] == "net")
     ads = Counter(a[0] for c in cases if c["kind"] == "net"
@@ -1573,6 +1612,11 @@ def distribution(cases, obss):
 
 def shrink_candidates(case):
     import copy
+
+    if case["kind"] == "sched":
+        for c in _sc.shrink_candidates(case["sched"]):
+            yield {"kind": "sched", "sched": c}
+        return
 
     if case["kind"] in ("so", "si"):
         ops = case["ops"]
